@@ -7,9 +7,13 @@ One case per line:   `KIND MODE FILE*`
         model is run with the given cuts, the check ignores pos/len of such lines), `X` all 2^(n-1) chunkings of
         the single FILE (one output line per chunking, mask order), `B`/`Y` = `C`/`X` read as bytes
         (hawk_rtx_readiobytes: the same model), `W` instability witness search for a regex RS over the prefixes of FILE.
-* MODE  `D` | `S<hh>` | `P0` | `P1` | `R<hex of RS>:<ast>`, ast = prefix tokens joined by `,`:
+* MODE  `D` | `S<hex of one character, UTF-8>` | `P0` | `P1` | `R<hex of RS>:<ast>`, ast = prefix tokens joined by `,`:
         `.` seq, `|` alt, `?` opt, `+` plus, `$` eol, `c<hh>` character
-* FILE  `<name>=<hex content>/<cut positions joined by ,>`   (name may be empty: stdin)
+* FILE  `<name>=<hex of the file's bytes (UTF-8)>/<cut positions joined by ,>`   (name may be empty: stdin)
+        kinds C, X, F, P, Z see the characters (bytes decoded as UTF-8; records printed as UTF-8), kinds B, Y, G, Q
+        (getbline) see the bytes; F, G (std.c over real files) and P, Q, Z (std.c + sio/tio over a pipe fed in byte
+        chunks) are run without cuts — the chunking below the console handler is not the model's business, the theorems
+        say it does not matter; Z prints the same line once per byte chunking.
 Output: `r<nr>:<fnr>:<filename>:<hex rec>:<pos>:<len>:<eof>` per record, then `e<eos>:<pos>:<len>:<eof>`.
 -/
 namespace Hawk.Drv.ReadIo
@@ -60,13 +64,41 @@ def hexVal (c : Char) : Nat :=
   else if 'a' ≤ c ∧ c ≤ 'f' then c.toNat - 'a'.toNat + 10
   else if 'A' ≤ c ∧ c ≤ 'F' then c.toNat - 'A'.toNat + 10 else 0
 
-def unhex : List Char → List Char
-  | a :: b :: r => Char.ofNat (hexVal a * 16 + hexVal b) :: unhex r
+def unhexBytes : List Char → List Nat
+  | a :: b :: r => (hexVal a * 16 + hexVal b) :: unhexBytes r
   | _ => []
 
+/-- the bytes one by one as characters -/
+def rawChars (bs : List Nat) : List Char := bs.map Char.ofNat
+
+/-- UTF-8, sequences of 1 to 3 bytes; anything else is taken as a single byte (as the harness does) -/
+partial def utf8Dec : List Nat → List Char
+  | [] => []
+  | a :: r =>
+    match r with
+    | b :: r2 =>
+      if a / 32 == 6 && b / 64 == 2 then Char.ofNat ((a % 32) * 64 + b % 64) :: utf8Dec r2
+      else match r2 with
+        | c :: r3 =>
+          if a / 16 == 14 && b / 64 == 2 && c / 64 == 2 then
+            Char.ofNat ((a % 16) * 4096 + (b % 64) * 64 + c % 64) :: utf8Dec r3
+          else Char.ofNat a :: utf8Dec r
+        | [] => Char.ofNat a :: utf8Dec r
+    | [] => [Char.ofNat a]
+
+def unhex (h : List Char) : List Char := utf8Dec (unhexBytes h)
+
 def hexDigit (n : Nat) : Char := if n < 10 then Char.ofNat (48 + n) else Char.ofNat (87 + n)
+def hexByte (n : Nat) : List Char := [hexDigit (n / 16 % 16), hexDigit (n % 16)]
+/-- one byte per character (byte kinds) -/
+def hexRaw (l : List Char) : String := String.ofList (l.flatMap fun c => hexByte c.toNat)
+/-- the characters as UTF-8 -/
 def hex (l : List Char) : String :=
-  String.ofList (l.flatMap fun c => [hexDigit (c.toNat / 16 % 16), hexDigit (c.toNat % 16)])
+  String.ofList (l.flatMap fun c =>
+    let n := c.toNat
+    if n < 128 then hexByte n
+    else if n < 2048 then hexByte (192 + n / 64) ++ hexByte (128 + n % 64)
+    else hexByte (224 + n / 4096) ++ hexByte (128 + n / 64 % 64) ++ hexByte (128 + n % 64))
 
 /-- parse a prefix-notation regex; returns the tree and the unread tokens -/
 partial def parseRe : List String → Option (Re × List String)
@@ -108,10 +140,10 @@ def chunkAt (s : List Char) (cuts : List Nat) : Stream :=
         if k ≥ s.length then (if s.isEmpty then [] else [s]) else s.take k :: go (s.drop k) c cs
   go s 0 cuts
 
-def parseFile (w : String) : Option (String × List Char × List Nat) :=
+def parseFile (w : String) : Option (String × List Nat × List Nat) :=
   match w.splitOn "=" with
   | [name, rest] => match rest.splitOn "/" with
-    | [h, cuts] => some (name, unhex h.toList, (cuts.splitOn ",").filterMap String.toNat?)
+    | [h, cuts] => some (name, unhexBytes h.toList, (cuts.splitOn ",").filterMap String.toNat?)
     | _ => none
   | _ => none
 
@@ -122,21 +154,21 @@ def showSt (st : InState) : String :=
   s!"{min st.pos st.len}:{st.len}:{b st.eof}"
 
 /-- run the console loop, printing the state after every record -/
-partial def runShow (mode : Mode) (con : Console) (acc : List String) : List String :=
+partial def runShow (hx : List Char → String) (mode : Mode) (con : Console) (acc : List String) : List String :=
   match readRecordConsole mode con with
   | (none, con') => (s!"e{b con'.eos}:{showSt con'.st}" :: acc).reverse
   | (some r, con') =>
-    let line := s!"r{con'.nr}:{con'.fnr}:{con'.filename}:{hex r}:{showSt con'.st}"
-    if con'.pendingLen < con.pendingLen then runShow mode con' (line :: acc) else ("HANG" :: line :: acc).reverse
+    let line := s!"r{con'.nr}:{con'.fnr}:{con'.filename}:{hx r}:{showSt con'.st}"
+    if con'.pendingLen < con.pendingLen then runShow hx mode con' (line :: acc) else ("HANG" :: line :: acc).reverse
 
 def mkConsole (files : List (String × Stream)) : Console :=
   match files with
   | [("", cs)] => openConsole cs []
   | fs => openConsole [] fs
 
-def runCase (mode : Mode) (files : List (String × List Char × List Nat)) : String :=
+def runCase (hx : List Char → String) (mode : Mode) (files : List (String × List Char × List Nat)) : String :=
   let fs := files.map fun (n, s, cuts) => (n, chunkAt s cuts)
-  " ".intercalate (runShow mode (mkConsole fs) [])
+  " ".intercalate (runShow hx mode (mkConsole fs) [])
 
 def cutsOfMask (n mask : Nat) : List Nat :=
   (List.range (n - 1)).filterMap fun k => if mask.testBit k then some (k + 1) else none
@@ -166,20 +198,32 @@ def step (_ : Unit) (line : String) : Unit × String :=
   match words line with
   | kind :: modeS :: fileWs =>
     match parseMode modeS, fileWs.mapM parseFile with
-    | some mode, some files =>
+    | some mode, some bfiles =>
+      -- byte kinds (getbline) see the bytes, the others the decoded characters
+      let raw := kind == "B" || kind == "Y" || kind == "G" || kind == "Q"
+      let hx := if raw then hexRaw else hex
+      -- below the std.c console handler the chunking is sio's: the model is run without cuts
+      let nocuts := kind == "F" || kind == "G" || kind == "P" || kind == "Q" || kind == "Z"
+      let files := bfiles.map fun (n, bs, cuts) => (n, if raw then rawChars bs else utf8Dec bs, if nocuts then [] else cuts)
       if kind == "X" || kind == "Y" then
         match files with
         | [(name, s, _)] =>
           let n := s.length
           let outs := (List.range (2 ^ (n - 1))).map fun mask =>
-            s!"m{mask} " ++ runCase mode [(name, s, cutsOfMask n mask)]
+            s!"m{mask} " ++ runCase hx mode [(name, s, cutsOfMask n mask)]
           ((), "\n".intercalate outs)
+        | _ => ((), "bad-case")
+      else if kind == "Z" then
+        match bfiles with
+        | [(_, bs, _)] =>
+          let o := runCase hx mode files
+          ((), "\n".intercalate ((List.range (2 ^ (bs.length - 1))).map fun mask => s!"m{mask} " ++ o))
         | _ => ((), "bad-case")
       else if kind == "W" then
         match mode, files with
         | .regex m, [(_, s, _)] => ((), witness m s)
         | _, _ => ((), "bad-case")
-      else ((), runCase mode files)
+      else ((), runCase hx mode files)
     | _, _ => ((), "bad-case")
   | _ => ((), "bad-case")
 
